@@ -89,7 +89,10 @@ def run_tempo(case):
         sysf = oqupy.TimeDependentSystemWithField(lambda t, a: H0 + 0.3 * (a * B + np.conj(a) * B.conj().T))
         mfs = oqupy.MeanFieldSystem([sysf, sysf], lambda t, st_, a: (-0.2 + 0.5j) * a + 0.2 * t
                                     + 0.25 * np.trace(st_[0] @ B) + 0.25 * np.trace(st_[1] @ B))
-        dm = oqupy.MeanFieldTempo(mfs, [bath, bath], par, [rho0, rho0.T.copy()], complex(*case["a0"]),
+        o_b = np.array(b["o"], dtype=float)[::-1].copy()
+        o_b[0] += 0.5
+        bath2 = tempogen.build_bath(dict(b, o=list(o_b), V={"kind": "identity"}), p, d)[0]   # a second, different bath
+        dm = oqupy.MeanFieldTempo(mfs, [bath, bath2], par, [rho0, rho0.T.copy()], complex(*case["a0"]),
                                   start_time=t0, unique=case["unique"]).compute(t_end, progress_type="silent")
         for i in range(2):
             physical(out, "mean-field", dm.system_dynamics[i].states, tempogen.trunc_tol(p, 100.0), not cut)
